@@ -67,6 +67,14 @@ func generate(dir string, p *synth.Program) (files map[string]string, nfuncs int
 		}
 	}()
 	src := filepath.Join(dir, p.Name, p.Analyse[0])
+	// history: the code under test comes from the second load and generation of
+	// the program in this process (a long-lived caller - a watcher, a server,
+	// a test binary - generates again and again; nothing may go stale)
+	if first, _, ferr := analysis.LoadSources([]string{src}); ferr == nil {
+		a0 := analysis.NewAnalysisFromFile(first[0], src)
+		randdata.Generate(a0)
+		gounions.Generate(a0)
+	}
 	pkgs, _, lerr := analysis.LoadSources([]string{src})
 	if lerr != nil {
 		return nil, 0, fmt.Errorf("load: %v", lerr)
@@ -205,6 +213,9 @@ func main() {
 	for _, p := range progs {
 		files, nf, err := generate(*out, p)
 		if err != nil {
+			if kinds[p.Name] == "corpus" {
+				info.Failed = append(info.Failed, rt.FailedProg{Name: p.Name, Why: err.Error()})
+			}
 			info.Dropped = append(info.Dropped, fmt.Sprintf("%s: %v", p.Name, err))
 			os.Rename(filepath.Join(*out, p.Name), filepath.Join(*out, "..", "dropped-"+p.Name))
 			continue
@@ -226,6 +237,9 @@ func main() {
 			msg := strings.TrimSpace(string(outb))
 			if len(msg) > 600 {
 				msg = msg[:600] + "..."
+			}
+			if kinds[p.Name] == "corpus" {
+				info.Failed = append(info.Failed, rt.FailedProg{Name: p.Name, Why: "the generated code does not compile: " + msg})
 			}
 			info.Dropped = append(info.Dropped, fmt.Sprintf("%s: generated code does not compile: %s", p.Name, msg))
 			os.Rename(filepath.Join(*out, p.Name), filepath.Join(*out, "..", "dropped-"+p.Name))
